@@ -343,9 +343,19 @@ NEST = {
     'open-functions-unclosed': lambda n: 'a{x:' + 'f(' * n,
     'open-blocks-unclosed': lambda n: '@x{' * n,
     'selector-parens': lambda n: 'a' + '(' * n + ')' * n + '{x:y}',
+    # the second argument position of functions that take one (a fallback, an alternative)
+    'var-fallback': lambda n: 'a{x:' + 'var(v,' * n + 'red' + ')' * n + '}',
+    'var-fallback-defined': lambda n: '@variables{w:' + 'var(v,' * n + '1' + ')' * n + '}a{x:var(w)}',
+    'function-second-argument': lambda n: 'a{x:' + 'f(1,' * n + '1' + ')' * n + '}',
+    'calc-parens': lambda n: 'a{x:calc(' + '(' * n + '1' + ')' * n + ')}',
+    'attr-fallback': lambda n: 'a{x:' + 'attr(y,' * n + '1' + ')' * n + '}',
 }
 FLAT = {
     'rules': lambda n: 'a{x:y}' * n,
+    'calc-sum': lambda n: 'a{x:calc(1' + ' + 1' * n + ')}',
+    'media-expressions': lambda n: '@media screen' + ' and (color)' * n + '{a{x:y}}',
+    'var-sequence': lambda n: 'a{x:' + ' var(v,1)' * n + '}',
+    'function-arguments': lambda n: 'a{x:f(1' + ',1' * n + ')}',
     'declarations': lambda n: 'a{' + 'x:y;' * n + '}',
     'selectors': lambda n: ','.join(['a'] * n) + '{x:y}',
     'value-components': lambda n: 'a{x:' + ' 1px' * n + '}',
